@@ -1107,6 +1107,258 @@ def stress_F(ctx, rep, seconds):
 
 
 # ----------------------------------------------------------------------------
+# machine E: "equal instances" - modifiers-wrapped methods of instances with value equality
+# ----------------------------------------------------------------------------
+E_INSTANCES = {'p': 'primary', 'r': 'replica', 'o': 'other'}
+E_QUERY_NAMES = {
+    'S': 'sigtools.signature(ep.call)',
+    'I': 'inspect.signature(ep.call_emulated)',
+    'B': 'b = ep.call: (__self__ of the bound wrapper, b(...) result)',
+    'E': 'b = ep.call_emulated: (__self__ of the bound wrapper, b(...) result)',
+}
+# written-down answers of the retrievals run alone
+E_SPEC = {
+    ('p', 'S'): '(url, retries=3, *, timeout=None)',
+    ('r', 'S'): '(key, value, *, timeout=None, ttl=None)',
+    ('o', 'S'): '(key, *, timeout=None)',
+    ('p', 'I'): '(url, retries=3, *, timeout=None)',
+    ('r', 'I'): '(key, value, *, timeout=None, ttl=None)',
+    ('o', 'I'): '(key, *, timeout=None)',
+    ('p', 'B'): "primary|('fetch', 1)", ('r', 'B'): "replica|('store', 1)", ('o', 'B'): "other|('drop', 1)",
+    ('p', 'E'): "primary|('fetch', 1)", ('r', 'E'): "replica|('store', 1)", ('o', 'E'): "other|('drop', 1)",
+}
+
+
+def _self_of(obj, depth=0):
+    """the instance a bound sigtools wrapper is bound to (through _ForgerWrapper.__wrapped__,
+    _PokTranslator.func, bound method __self__)"""
+    if depth > 6:
+        return None
+    if inspect.ismethod(obj):
+        return obj.__self__
+    for attr in ('func', '__wrapped__'):
+        try:
+            nxt = vars(obj).get(attr) if hasattr(obj, '__dict__') else None
+        except TypeError:
+            nxt = None
+        if nxt is None:
+            nxt = getattr(obj, attr, None)
+        if nxt is not None and nxt is not obj:
+            r = _self_of(nxt, depth + 1)
+            if r is not None:
+                return r
+    return None
+
+
+class EScenario(object):
+    """A FRESH class with value equality (__eq__/__hash__ by name) and three instances:
+    primary == replica (not identical, different handlers), other != both."""
+    machine = 'E'
+    name = 'equal-instances'
+
+    def __init__(self):
+        def fetch(url, retries=3):
+            return ('fetch', url)
+
+        def drop(key):
+            return ('drop', key)
+
+        class Endpoint(object):
+            def __init__(self, name, handler):
+                self.name = name
+                self.handler = handler
+
+            def __eq__(self, other):
+                return isinstance(other, Endpoint) and self.name == other.name
+
+            def __ne__(self, other):
+                return not self == other
+
+            def __hash__(self):
+                return hash(self.name)
+
+            @specifiers.forwards_to_method('handler')
+            @modifiers.kwoargs('timeout')
+            def call(self, timeout=None, *args, **kwargs):
+                return self.handler(*args, **kwargs)
+
+            @specifiers.forwards_to_method('handler', emulate=True)
+            @modifiers.kwoargs('timeout')
+            def call_emulated(self, timeout=None, *args, **kwargs):
+                return self.handler(*args, **kwargs)
+
+        def store2(key, value, *, ttl=None):
+            return ('store', key)
+        self.cls = Endpoint
+        self.inst = {'p': Endpoint('cache', fetch), 'r': Endpoint('cache', store2), 'o': Endpoint('purge', drop)}
+        d = vars(Endpoint)
+        self.tracked = [d['call'], d['call_emulated']]
+        w = getattr(d['call_emulated'], '__wrapped__', None)
+        if w is not None:
+            self.tracked.append(w)
+
+    def who(self, obj):
+        for k, v in self.inst.items():
+            if obj is v:
+                return E_INSTANCES[k]
+        return 'none' if obj is None else 'unknown'
+
+    def call(self, spec):
+        ep = self.inst[spec[0]]
+        q = spec[1]
+        if q == 'S':
+            return lambda: str(sigtools.signature(ep.call))
+        if q == 'I':
+            return lambda: str(inspect.signature(ep.call_emulated))
+
+        def bind():
+            b = ep.call if q == 'B' else ep.call_emulated
+            if spec[0] == 'r':
+                res = b(1, 2)
+            else:
+                res = b(1)
+            return '%s|%s' % (self.who(_self_of(b)), (res,) if not isinstance(res, tuple) else res)
+        return bind
+
+
+_E_SOLO = {}
+
+
+def e_solo(spec):
+    if spec not in _E_SOLO:
+        _E_SOLO[spec] = _safe(EScenario().call(spec))
+    return _E_SOLO[spec]
+
+
+def _worker_E(job):
+    specs, plans = job
+    sys.setswitchinterval(0.005)
+    out = []
+    for p in plans:
+        sc = EScenario()
+        r = Run([sc.call(sp) for sp in specs], sc.tracked)
+        status = r.run_plan(list(p))
+        again = [_safe(sc.call(sp)) for sp in specs]
+        out.append({'status': status, 'results': list(r.result), 'traces': [list(t) for t in r.trace],
+                    'again': again})
+    return out
+
+
+def run_batch_E(specs, plans, workers):
+    chunk = max(1, min(100, (len(plans) + workers - 1) // workers))
+    jobs = [(specs, plans[i:i + chunk]) for i in range(0, len(plans), chunk)]
+    if workers <= 1 or len(jobs) == 1:
+        res = [_worker_E(j) for j in jobs]
+    else:
+        import multiprocessing
+        ctxmp = multiprocessing.get_context('fork')
+        with concurrent.futures.ProcessPoolExecutor(max_workers=workers, mp_context=ctxmp) as ex:
+            res = list(ex.map(_worker_E, jobs))
+    return [o for part in res for o in part]
+
+
+def judge_E(specs, plan, o):
+    out = []
+    for tid, (sp, res) in enumerate(zip(specs, o['results'])):
+        if res != e_solo(sp):
+            out.append(('C17:equal-instances',
+                        'equal instances (primary == replica, different handlers), threads %s, plan %s: thread %d on %s, %s returned %s, alone it returns %s'
+                        % (' '.join(specs), list(plan), tid, E_INSTANCES[sp[0]], E_QUERY_NAMES[sp[1]], res, e_solo(sp))))
+    for sp, a in zip(specs, o['again']):
+        if a != e_solo(sp):
+            out.append(('C17:equal-instances',
+                        'equal instances, threads %s, plan %s: after the threads finished, on %s %s returns %s instead of %s'
+                        % (' '.join(specs), list(plan), E_INSTANCES[sp[0]], E_QUERY_NAMES[sp[1]], a, e_solo(sp))))
+    return out
+
+
+def explore_E(ctx, rep, workers):
+    rng = ctx.rng('plansE')
+    for sp, want in sorted(E_SPEC.items()):
+        sp = ''.join(sp)
+        if e_solo(sp) != want:
+            rep.violation('C17:solo-answer', 'equal instances: on %s %s alone returns %s, expected %s'
+                          % (E_INSTANCES[sp[0]], E_QUERY_NAMES[sp[1]], e_solo(sp), want),
+                          {'machine': 'E', 'specs': [sp], 'plan': [[0, None]]})
+            return
+    K = 26
+    two = all_plans(2, 2, K)
+    qs = ['S', 'I', 'B', 'E']
+    pairs = [('p' + a, 'r' + b) for a in qs for b in qs] + [('pS', 'pS'), ('rI', 'rB'), ('pB', 'oS')]
+    sets = []
+    for pr in pairs:
+        if ctx.quick:
+            ps = two[:2] + [p for p in two[2:] if rng.random() < 0.12]
+        else:
+            ps = two
+        sets.append((list(pr), ps, not ctx.quick))
+    n3 = 200 if ctx.quick else 4000
+    for _ in range(2):
+        trio = [i + rng.choice(qs) for i in 'pro']
+        rng.shuffle(trio)
+        ps = set()
+        while len(ps) < n3:
+            ps.add(random_plan(rng, 3, 2, K))
+        sets.append((trio, sorted(ps, key=str), False))
+    cov = rep.coverage.setdefault('E', {})
+    for specs, plans, exhaustive in sets:
+        obs = run_batch_E(specs, plans, workers)
+        stats = {'plans': len(plans), 'valid': 0, 'nonsequential': 0, 'preemption_positions': K,
+                 'exhaustive_le2_preemptions': exhaustive}
+        for p, o in zip(plans, obs):
+            rep.evaluations += 1
+            if o['status'] == 'ok':
+                stats['valid'] += 1
+                rep.distinct.add(('E', tuple(specs), tuple(o['results']), tuple(tuple(t) for t in o['traces'])))
+            v = judge_E(specs, p, o)
+            if v:
+                stats['nonsequential'] += 1
+            for key, what in v:
+                rep.violation(key, what, {'machine': 'E', 'specs': specs, 'plan': [list(x) for x in p]})
+        cov['equal-instances/%s' % '-'.join(specs)] = stats
+
+
+def stress_E(ctx, rep, seconds):
+    """three free-running threads on the three instances of a fresh class, several rounds each"""
+    rng = ctx.rng('stressE')
+    old = sys.getswitchinterval()
+    rounds = wrong = 0
+    try:
+        sys.setswitchinterval(1e-6)
+        t_end = time.time() + seconds
+        while time.time() < t_end:
+            rounds += 1
+            sc = EScenario()
+            specs = [i + rng.choice('SIBE') for i in 'pro']
+            barrier = threading.Barrier(3)
+            res = [[] for _ in specs]
+
+            def body(i):
+                fn = sc.call(specs[i])
+                try:
+                    barrier.wait(10)
+                except threading.BrokenBarrierError:
+                    return
+                for _ in range(3):
+                    res[i].append(_safe(fn))
+            ths = [threading.Thread(target=body, args=(i,), daemon=True) for i in range(3)]
+            for t in ths:
+                t.start()
+            for t in ths:
+                t.join(30)
+            for sp, rs in zip(specs, res):
+                for r in rs:
+                    if r != e_solo(sp):
+                        wrong += 1
+                        rep.violation('C17:equal-instances',
+                                      'stress, equal instances: on %s %s returned %s, alone %s'
+                                      % (E_INSTANCES[sp[0]], E_QUERY_NAMES[sp[1]], r, e_solo(sp)), {'machine': 'stressE'})
+    finally:
+        sys.setswitchinterval(old)
+    rep.coverage['stressE'] = {'rounds': rounds, 'wrong_answers': wrong}
+
+
+# ----------------------------------------------------------------------------
 # randomized stress (true preemption, minimal switch interval)
 # ----------------------------------------------------------------------------
 def stress(ctx, rep, seconds):
@@ -1199,8 +1451,10 @@ def run(ctx, rep):
     explore_G(ctx, rep, workers)
     explore_C(ctx, rep, workers)
     explore_F(ctx, rep, workers)
+    explore_E(ctx, rep, workers)
     stress(ctx, rep, 4.0 if ctx.quick else 30.0)
     stress_F(ctx, rep, 2.0 if ctx.quick else 15.0)
+    stress_E(ctx, rep, 2.0 if ctx.quick else 15.0)
     rep.traces = rep.evaluations
     rep.assumptions.extend([
         'threads are preempted only at line events of the modelled sigtools functions '
@@ -1242,6 +1496,23 @@ def replay(ctx, data):
         if not o['final_ok']:
             bad.append('the method lost its signature / behaviour')
         return '; '.join(bad) if bad else None
+    if d.get('machine') == 'E':
+        specs = list(d['specs'])
+        plan = [(t, n) for t, n in d['plan']]
+        o = _worker_E((specs, [plan]))[0]
+        v = judge_E(specs, plan, o)
+        return '; '.join(w for _, w in v) if v else None
+    if d.get('machine') == 'stressE':
+        class RE(object):
+            def __init__(self):
+                self.v = []
+                self.coverage = {}
+
+            def violation(self, key, what, rp):
+                self.v.append(what)
+        rE = RE()
+        stress_E(ctx, rE, 8.0)
+        return '; '.join(rE.v[:3]) if rE.v else None
     if d.get('machine') == 'F':
         kinds = list(d['kinds'])
         plan = [(t, n) for t, n in d['plan']]
